@@ -497,12 +497,20 @@ def refs_proto(P, targets, jobdir, full, services=True):
     exp = []
     body, n = [], 1
     rpcs = []
+    used_names = set()
     for ti, Q in enumerate(targets):
         combos = [(s, k) for s in range(4) for k in range(4)] if full else [(s, (s + ti) % 4) for s in range(4)]
         for s, k in combos:
             kind = KINDS[k]
             site = SITES[s]
             fname = f"f{ti}_{site}_{k}"
+            rest = list(Q)[len(P):]
+            if site == "field" and (s, k) == combos[0] and len(Q) > len(P) and list(Q)[:len(P)] == list(P) and "_".join(rest) not in used_names:
+                # the field is called exactly like the alias under which the descendant package is imported (`from . import b`,
+                # `from .b import c as b_c`): annotations must resolve against the MODULE, not against the class attribute of
+                # that name (seeded change C13-5)
+                fname = "_".join(rest)
+            used_names.add(fname)
             ty = fq(Q, kind)
             if site == "field":
                 body.append(f"  {ty} {fname} = {n};")
@@ -594,7 +602,7 @@ def check_job(job, modname):
         mod = mods[p]
         try:
             Refs = getattr(mod, job["refs"])
-            hints = typing.get_type_hints(Refs, vars(mod))
+            hints = typing.get_type_hints(Refs, vars(mod), {})   # evaluated in the MODULE namespace (a field may be named like an import alias)
             bp_hints = Refs._type_hints()
         except BaseException as e:
             fails.append({"what": f"type hints of {p or '<root>'}.Refs raised {type(e).__name__}: {e}", "pkg": p})
